@@ -1,7 +1,6 @@
 (* C14 -- UID/GID mapping translates every id crossing the VFS, per mount, both ways.
    Only statements, closed by [exact]; proofs live in Proofs/VfsIdmap.v and Proofs/VfsMapOf.v.
-   Where the faithful model refutes the full statement because of a defect of the code, the full
-   statement is kept as a Definition, refuted by a witness, and the proved part excludes the narrow class. *)
+   The four statements the faithful model used to refute (defects fixed in /repo) are now proved in full. *)
 From Coq Require Import List NArith Bool.
 From FB Require Import Model.Pseudo Gen.VfsTable Model.Vfs Proofs.VfsCodec Proofs.VfsAlloc Proofs.VfsInv Proofs.VfsRouting
   Proofs.VfsIssued Proofs.VfsIdmap Proofs.VfsMapOf.
@@ -18,26 +17,22 @@ Theorem C14_remap_algebra : forall i e r v, map_wf (i, e, r) ->
   (v < two32 -> exists w1 w2, to_ext (Some (i, e, r)) v = Some w1 /\ w1 < two32 /\ to_int (Some (i, e, r)) v = Some w2 /\ w2 < two32).
 Proof. exact remap_algebra. Qed.
 
-(* in: every backend call of a request carries the caller's ids translated external -> internal with the mapping
-   selected by the header nodeid; setattr owner ids are translated with the serving slot's mapping *)
+(* in: every backend call of a request carries the caller's ids translated external -> internal with the mapping of
+   the mount that serves the request (the header nodeid's slot; for nodeid 1, the mount at "/" when there is one);
+   setattr owner ids are translated with the serving slot's mapping *)
 Theorem C14_in_ctx : forall s hdr c o a r evs, vfs_request s hdr c o a = (r, evs) ->
-  Forall (fun ev => Some (ev_cuid ev) = to_int (effective_mapping s (fs_idx hdr)) (c_uid c) /\
-                    Some (ev_cgid ev) = to_int (effective_mapping s (fs_idx hdr)) (c_gid c)) evs.
+  Forall (fun ev => Some (ev_cuid ev) = to_int (effective_mapping s (ctx_idx s hdr)) (c_uid c) /\
+                    Some (ev_cgid ev) = to_int (effective_mapping s (ctx_idx s hdr)) (c_gid c)) evs.
 Proof. exact ctx_in. Qed.
+Theorem C14_in_full : forall s c o a r evs b idx i, eff s (hdr_of o) = Some (b, idx, i) ->
+  vfs_request s (hdr_of o) c o a = (r, evs) ->
+  Forall (fun ev => Some (ev_cuid ev) = to_int (effective_mapping s idx) (c_uid c) /\
+                    Some (ev_cgid ev) = to_int (effective_mapping s idx) (c_gid c)) evs.
+Proof. exact in_full. Qed.
 Theorem C14_in_setattr : forall s c n u g a r ev evs, wf s -> vfs_op s c (OSetattr n u g) a = (r, ev :: evs) ->
   exists b idx i, eff s n = Some (b, idx, i) /\
     Some (ev_suid ev) = to_int (effective_mapping s idx) u /\ Some (ev_sgid ev) = to_int (effective_mapping s idx) g.
 Proof. exact setattr_in. Qed.
-(* "... with the mapping of the mount that serves the request": refuted for nodeid 1 standing for a root mount
-   (the context is translated with the global mapping); proved for every other header nodeid *)
-Definition C14_in_full : Prop := in_full.
-Theorem C14_in_refuted : ~ C14_in_full.
-Proof. exact in_refuted. Qed.
-Theorem C14_in_partial : forall s c o a r evs b idx i, eff s (hdr_of o) = Some (b, idx, i) -> fs_idx (hdr_of o) <> 0 ->
-  vfs_request s (hdr_of o) c o a = (r, evs) ->
-  Forall (fun ev => Some (ev_cuid ev) = to_int (effective_mapping s idx) (c_uid c) /\
-                    Some (ev_cgid ev) = to_int (effective_mapping s idx) (c_gid c)) evs.
-Proof. exact in_partial. Qed.
 
 (* out: owner ids in replies served by a backend are the backend's, translated internal -> external with the
    mapping of the serving slot: lookup/symlink/mknod/mkdir/create/link, getattr/setattr, readdirplus *)
@@ -56,72 +51,68 @@ Theorem C14_out_readdirplus : forall s c n size off lim a l ev evs, wf s ->
                                  ids_out s idx (e_uid (snd x)) (e_gid (snd x)) (e_uid e) (e_gid e)) l.
 Proof. exact out_readdirplus. Qed.
 
-(* mount roots: translated once at mount time with the mapping then in force for the new slot *)
+(* mount roots: translated once, at mount time, with the mapping of the new mount (its own, else the global one:
+   nothing a previous occupant of the slot left behind), and handed out unchanged by lookup across the mount point *)
 Theorem C14_out_mount_root : forall s bid p map a s' idx evs, vfs_mount s bid p map a = (s', VOk idx, evs) ->
-  effective_mapping s' idx = (match map with Some x => Some x | None => effective_mapping s idx end) /\
+  effective_mapping s' idx = (match map with Some x => Some x | None => v_gmap s end) /\
   exists pino m, aget pino (v_mps s') = Some m /\ mp_idx m = idx /\ mp_ino m = ma_ino a /\
                  ids_out s' idx (ma_uid a) (ma_gid a) (e_uid (mp_entry m)) (e_gid (mp_entry m)).
 Proof. exact mount_root_translated. Qed.
-(* ... and handed out unchanged by lookup across the mount point: refuted (translated a second time), proved
-   when the stored ids are not themselves inside the internal range *)
-Definition C14_out_root_full : Prop := root_out_full.
-Theorem C14_out_root_refuted : ~ C14_out_root_full.
-Proof. exact root_out_refuted. Qed.
-Theorem C14_out_root_partial : forall s n nm ino m e,
+Theorem C14_out_root_full : forall s n nm ino m e,
   ps_lookup (v_ps s) (ino_of n) nm = Ok ino -> aget ino (v_mps s) = Some m -> lookup_pseudo s n nm = Ok e ->
-  to_ext (effective_mapping s (mp_idx m)) (e_uid (mp_entry m)) = Some (e_uid (mp_entry m)) ->
-  to_ext (effective_mapping s (mp_idx m)) (e_gid (mp_entry m)) = Some (e_gid (mp_entry m)) ->
-  e_uid e = e_uid (mp_entry m) /\ e_gid e = e_gid (mp_entry m).
-Proof. exact root_out_partial. Qed.
+  e = mp_entry m.
+Proof. exact root_out_full. Qed.
 
-(* pseudo directories (internal owner 0:0): lookup and getattr agree -- refuted when the global mapping covers 0
-   (lookup translates, getattr and readdirplus do not) *)
-Definition C14_pseudo_owner_full : Prop := pseudo_owner_full.
-Theorem C14_pseudo_owner_refuted : ~ C14_pseudo_owner_full.
-Proof. exact pseudo_owner_refuted. Qed.
-Theorem C14_pseudo_owner_partial : forall s n nm ino e x, fs_idx n = 0 ->
+(* pseudo directories (internal owner 0:0): lookup and getattr of the same directory agree on its owner (both
+   translate with the mapping of index 0) and on its inode number *)
+Theorem C14_pseudo_owner_full : forall s c a n nm ino e x evs, fs_idx n = 0 ->
   ps_lookup (v_ps s) (ino_of n) nm = Ok ino -> aget ino (v_mps s) = None ->
-  lookup_pseudo s n nm = Ok e -> ps_getattr (v_ps s) ino = Ok x ->
-  to_ext (effective_mapping s 0) 0 = Some 0 ->
-  e_uid e = a_uid (pseudo_attr x) /\ e_gid e = a_gid (pseudo_attr x).
-Proof. exact pseudo_owner_partial. Qed.
+  lookup_pseudo s n nm = Ok e ->
+  vfs_op s c (OGetattr (e_ino e)) a = (Ok (RAttr x), evs) ->
+  evs = [] /\ a_uid x = e_uid e /\ a_gid x = e_gid e /\ a_ino x = e_ino e.
+Proof. exact pseudo_owner_full. Qed.
 
-(* mapping_of: after any history, the mapping in force for a slot is the one given to the mount attached there,
-   else the global one -- refuted by an over-mount followed by wrap-around reuse of the vacated slot; proved for
-   histories without over-mounts in which every mount that is given a mapping succeeds *)
-Definition C14_mapping_of_full : Prop := mapping_of_full.
-Theorem C14_mapping_of_refuted : ~ C14_mapping_of_full.
-Proof. exact mapping_of_refuted. Qed.
-Theorem C14_mapping_of_partial : forall o rm l idx mo,
-  clean_from (vfs_new o rm, fun _ => None) l ->
+(* mapping_of: after ANY history (over-mounts, mounts that fail after their index was allocated, any number of index
+   wrap-arounds) the mapping in force for a slot is the one given to the mount attached there, else the global one *)
+Theorem C14_mapping_of_full : forall o rm l idx mo,
   snd (grun o rm l) idx = Some mo ->
   effective_mapping (fst (grun o rm l)) idx = mapping_expected (fst (grun o rm l)) mo.
-Proof. exact mapping_of_partial. Qed.
+Proof. exact mapping_of_full. Qed.
 
-(* non-vacuity *)
+(* non-vacuity; the witnesses that refuted these statements before the fix commits 7179ce2, 549e05a, 0586b56, 94968f8 *)
 Example C14_nonvacuous_wf : map_wf (0, 100000, 65536) /\ in_range 5 0 65536 /\ in_range 100005 100000 65536.
 Proof. unfold map_wf, in_range, two32. repeat split; discriminate. Qed.
-Example C14_nonvacuous_clean :
-  let l := [HMount 10 (mkPath true [CNorm 1]) (Some (0, 100000, 65536)) okm; HMount 11 (mkPath true [CNorm 2]) None okm;
-            HUmount (mkPath true [CNorm 1]); HMount 12 (mkPath true [CNorm 3]) None okm] in
-  clean_from (vfs_new default_opts false, fun _ => None) l /\
-  snd (grun default_opts false l) 2 = Some None /\ snd (grun default_opts false l) 3 = Some None.
-Proof. exact clean_example. Qed.
+Example C14_witness_root_mount_ctx : reachable ex_rootmap /\ eff ex_rootmap 1 = Some (10, 1, 1) /\
+  map (fun ev => (ev_bid ev, ev_cuid ev, ev_cgid ev))
+      (snd (vfs_request ex_rootmap 1 (mkC 100005 100006) (OGetattr 1) (mkAns 0 (mkE 0 0 0 0 0) (mkA 1 0 0 0) 0 []))) = [(10, 5, 6)].
+Proof. exact in_root_mount. Qed.
+Example C14_witness_root_once : reachable ex_double /\
+  lookup_pseudo ex_double 1 (NNorm 1) = Ok (mkE (mk_vino 1 1) (mk_vino 1 1) 1005 1006 0).
+Proof. exact root_out_once. Qed.
+Example C14_witness_pseudo_owner : reachable ex_gmap /\
+  lookup_pseudo ex_gmap 1 (NNorm 1) = Ok (mkE 2 2 1000 1000 0) /\
+  fst (vfs_op ex_gmap (mkC 0 0) (OGetattr 2) (mkAns 0 (mkE 0 0 0 0 0) (mkA 0 0 0 0) 0 [])) = Ok (RAttr (mkA 2 1000 1000 0)).
+Proof. exact pseudo_owner_translated. Qed.
+Example C14_witness_slot_reuse :
+  snd (grun default_opts false stale_history) 1 = Some None /\
+  aget 1 (v_sb (fst (grun default_opts false stale_history))) = Some 12 /\
+  effective_mapping (fst (grun default_opts false stale_history)) 1 = None.
+Proof. exact slot_reuse_clean. Qed.
+Example C14_witness_failed_mount :
+  let l := [HMount 10 (mkPath false [CNorm 1]) (Some (0, 100000, 65536)) okm] in
+  v_maps (fst (grun default_opts false l)) = [] /\ v_next (fst (grun default_opts false l)) = 2.
+Proof. exact failed_mount_clean. Qed.
 Example C14_overflow_without_wf : remap_id 10 0 4294967290 100 = None.
 Proof. exact remap_overflow. Qed.
 
 Print Assumptions C14_remap_algebra.
 Print Assumptions C14_in_ctx.
+Print Assumptions C14_in_full.
 Print Assumptions C14_in_setattr.
-Print Assumptions C14_in_refuted.
-Print Assumptions C14_in_partial.
 Print Assumptions C14_out_entry.
 Print Assumptions C14_out_attr.
 Print Assumptions C14_out_readdirplus.
 Print Assumptions C14_out_mount_root.
-Print Assumptions C14_out_root_refuted.
-Print Assumptions C14_out_root_partial.
-Print Assumptions C14_pseudo_owner_refuted.
-Print Assumptions C14_pseudo_owner_partial.
-Print Assumptions C14_mapping_of_refuted.
-Print Assumptions C14_mapping_of_partial.
+Print Assumptions C14_out_root_full.
+Print Assumptions C14_pseudo_owner_full.
+Print Assumptions C14_mapping_of_full.
